@@ -339,7 +339,7 @@ func driveNode(args []string) error {
 			miner := (p.height - 1) % nodeDeputies
 			blk, invalid, err := s.builder.Build(parent, miner, 0, txs, fmt.Sprintf("b%d", p.id))
 			if err != nil {
-				engine.Failf("scenario %d: build block %d: %v", h, p.id, err)
+				engine.Realf("scenario %d: build block %d: %v", h, p.id, err)
 			}
 			s.blocks[p.id] = blk
 			step++
@@ -359,7 +359,7 @@ func driveNode(args []string) error {
 				if ierr != nil {
 					if !deputynode.IsSnapshotBlock(uint32(p.height)) {
 						// nothing C10 speaks about: a block the real assembler built from unique, valid transactions
-						engine.Failf("scenario %d: the second node rejects block %d (%v): %v", h, p.id, desc, ierr)
+						engine.Realf("scenario %d: the second node rejects block %d (%v): %v", h, p.id, desc, ierr)
 					}
 					fl["nut_err"] = ierr.Error()
 					crashed = true // the second node does not hold this block: the scenario ends here
